@@ -98,6 +98,13 @@ def _sample_job(args):
             'wall_s': round(time.time() - t0, 2)}
 
 
+def tagged_for(name, prop):
+    """Obligation names may end in '@C01,C07': the properties they serve."""
+    if '@' not in name:
+        return True
+    return prop in name.rsplit('@', 1)[1].split(',')
+
+
 def mutate_source(path, old, new):
     with open(path) as f:
         src = f.read()
@@ -199,6 +206,8 @@ def check_property(prop, tier='quick', seed=0):
                 rep.undecided.append('%s.%s: %s: %s' % (
                     r['module'], r['proof'], e[0], e[1][:300]))
         for ob in r['obligations']:
+            if not tagged_for(ob['name'], prop):
+                continue
             row = dict(ob)
             row['proof'] = r['proof']
             row['module'] = r['module']
@@ -307,6 +316,8 @@ def check_property(prop, tier='quick', seed=0):
         for et, v in s['exceptions'].items():
             fails.setdefault('no-unexpected-exception', v['inputs'])
         for nm, inputs in fails.items():
+            if not tagged_for(nm, prop):
+                continue
             ob_id = '%s/%s/%s' % (prop, s['proof'], nm)
             if ob_id in handled:
                 continue
